@@ -359,8 +359,12 @@ class Gen(object):
             self.line([self.simple(), {'op': 'LET', 'v': self.r.choice(IVARS), 'e': B('+', C(32767), self.atom())}, self.simple()])
         elif r < 0.7:
             self.line([{'op': 'LET', 'v': self.r.choice(ALLVARS), 'e': B(self.r.choice(['\\', 'MOD']), self.atom(), self.atom())}])
-        elif r < 0.8:
+        elif r < 0.76:
             self.line([{'op': 'ONERR', 'n': self.r.choice([('handler', 0), ('handler', 0), 0, 64000])}])
+        elif r < 0.8:
+            # the trap switched off and on again, then a fault raised inside an expression (division by zero / integer overflow)
+            self.line([{'op': 'ONERR', 'n': 0}, {'op': 'ONERR', 'n': ('handler', 0)}])
+            self.line([{'op': 'LET', 'v': self.r.choice(ALLVARS), 'e': self.r.choice([B('\\', self.atom(), C(0)), B('+', C(32767), C(self.r.randint(1, 9)))])}])
         elif r < 0.9:
             self.line([{'op': 'PRINT', 'e': {'k': 'err'}}, {'op': 'PRINT', 'e': {'k': 'erl'}}])
         else:
